@@ -1,8 +1,104 @@
 import DarkluaModel.Util.Sexp
-/-! Line-protocol handlers for property C09 (stub: nothing modelled yet). -/
+import DarkluaModel.C09.Model
+import DarkluaModel.C09.Spec
+/-! Line-protocol handlers for property C09.
+
+Event stream = one token, events separated by `;`, empty stream `.`:
+`+` push, `-` pop, `i:<n>` insert, `S` insert_self, `l:<n>` insert_local, `f:<n>`
+insert_local_function, `u:<n>` process_variable_expression, `t:<n>` process_type_field.
+Name list = comma separated, `-` when empty. -/
 namespace DarkluaModel.C09
 
-def handle (op : String) (_args : List String) : String :=
-  "unknown-op " ++ op
+def isNameChar (c : Char) : Bool := c.isAlphanum || c == '_'
+
+def parseName? (s : String) : Option Name :=
+  let cs := s.toList
+  if cs.isEmpty || !cs.all isNameChar then none else some cs
+
+def parseEvent? (s : String) : Option Event :=
+  match s.toList with
+  | ['+'] => some .push
+  | ['-'] => some .pop
+  | ['S'] => some .insertSelf
+  | k :: ':' :: rest =>
+    if rest.isEmpty || !rest.all isNameChar then none
+    else if k == 'i' then some (.insert rest)
+    else if k == 'l' then some (.insertLocal rest)
+    else if k == 'f' then some (.insertLocalFunction rest)
+    else if k == 'u' then some (.use rest)
+    else if k == 't' then some (.useType rest)
+    else none
+  | _ => none
+
+def parseEvents? (s : String) : Option (List Event) :=
+  if s == "." then some [] else (s.splitOn ";").mapM parseEvent?
+
+def parseNames? (s : String) : Option (List Name) :=
+  if s == "-" then some [] else (s.splitOn ",").mapM parseName?
+
+def parseBool01? (s : String) : Option Bool :=
+  if s == "0" then some false else if s == "1" then some true else none
+
+def showEvent : Event → String
+  | .push => "+"
+  | .pop => "-"
+  | .insertSelf => "S"
+  | .insert x => "i:" ++ String.ofList x
+  | .insertLocal x => "l:" ++ String.ofList x
+  | .insertLocalFunction x => "f:" ++ String.ofList x
+  | .use x => "u:" ++ String.ofList x
+  | .useType x => "t:" ++ String.ofList x
+
+def showEvents (es : List Event) : String :=
+  if es.isEmpty then "." else ";".intercalate (es.map showEvent)
+
+/-- sorted, deduplicated (the Rust side holds a `HashSet`) -/
+def showNameSet (ns : List Name) : String :=
+  let strs := (ns.map String.ofList).toArray.qsort (· < ·) |>.toList
+  let dedup := strs.foldr (fun s acc => match acc with
+    | t :: _ => if s == t then acc else s :: acc
+    | [] => [s]) []
+  if dedup.isEmpty then "-" else ",".intercalate dedup
+
+def showResolve (rs : List (Option Nat)) : String :=
+  if rs.isEmpty then "." else
+    ",".intercalate (rs.map fun r => match r with | some i => toString i | none => "g")
+
+def parseConfig? (incl detect globals : String) : Option Config :=
+  match parseBool01? incl, parseBool01? detect, parseNames? globals with
+  | some i, some d, some g => some { globals := g, includeFunctions := i, detectGlobals := d }
+  | _, _, _ => none
+
+def handle (op : String) (args : List String) : String :=
+  match op, args with
+  | "rename", [incl, detect, globals, events] =>
+    match parseConfig? incl detect globals, parseEvents? events with
+    | some cfg, some es => showEvents (renameRule cfg es)
+    | _, _ => "bad-args"
+  | "hself", [incl, detect, globals, events] =>
+    match parseConfig? incl detect globals, parseEvents? events with
+    | some cfg, some es => toString (selfNotGenerated cfg.includeFunctions (renameRule cfg es))
+    | _, _ => "bad-args"
+  | "resolve", [events] =>
+    match parseEvents? events with
+    | some es => showResolve (resolve es)
+    | none => "bad-args"
+  | "globals", [events] =>
+    match parseEvents? events with
+    | some es => showNameSet (collectGlobals es)
+    | none => "bad-args"
+  | "specglobals", [events] =>
+    match parseEvents? events with
+    | some es => showNameSet (globalUses es)
+    | none => "bad-args"
+  | "wellbracketed", [events] =>
+    match parseEvents? events with
+    | some es => toString (wellBracketed es)
+    | none => "bad-args"
+  | "nth", [n] =>
+    match n.toNat? with
+    | some k => if k > 100000000 then "bad-args" else String.ofList (permNth k)
+    | none => "bad-args"
+  | _, _ => "bad-args"
 
 end DarkluaModel.C09
